@@ -254,6 +254,21 @@ fn deep_walk(picks: &[u64]) -> Vec<String> {
     }
     if std::env::var("VERIF_DEBUG").is_ok() { eprintln!("deep_walk: {} buckets, sizes {:?}", groups.len(), groups.values().map(|v| v.len()).collect::<Vec<_>>()); }
     let mut out = vec![];
+    // the menus of nodes below the recalled depth (the raise count of the CURRENT betting round decides them)
+    {
+        let mut emitted = 0;
+        for (_, members) in groups.iter() {
+            for m in members.iter() {
+                if emitted >= 40 { break; }
+                let node = tree.at(*m);
+                if node.history().len() <= 16 { continue; }
+                let hist: Vec<String> = node.history().iter().map(|e| edge_tok(e)).collect();
+                let menu: Vec<String> = Vec::<Edge>::from(node.bucket().2.clone()).iter().map(edge_tok).collect();
+                out.push(format!("dmenu {} | {} {}", hist.join(","), crate::walk::state_str(node.data().game()), menu.join(",")));
+                emitted += 1;
+            }
+        }
+    }
     let mut profile = Profile::default();
     for epoch in 0..6 {
         for (key, members) in groups.iter().filter(|(_, m)| m.len() >= 2).take(6) {
